@@ -332,3 +332,20 @@ func BuildForwardingLoose(r Route) (*core.Forwarding, error) {
 	}
 	return &core.Forwarding{ProtocolId: id, Attributes: anyv, PassthroughPayload: r.Passthrough}, nil
 }
+
+// BuildPayload builds the payload wrapper of a transfer through the module's constructors.
+func BuildPayload(t Transfer) (*core.PayloadWrapper, error) {
+	fw, err := BuildForwarding(t.Route)
+	if err != nil {
+		return nil, err
+	}
+	var acts []*core.Action
+	for _, a := range t.Actions {
+		act, err := BuildAction(a, true)
+		if err != nil {
+			return nil, err
+		}
+		acts = append(acts, act)
+	}
+	return core.NewPayloadWrapper(fw, acts...)
+}
